@@ -20,6 +20,7 @@ wire; the model's `strip` normalises that slot to `unit`.
 -/
 import FuelVerif.Model.Offsets
 import FuelVerif.Gen.PrepareSign
+import FuelVerif.Gen.Precompute
 namespace FuelVerif.TxId
 open FuelVerif FuelVerif.Canonical FuelVerif.Canonical.Resolve FuelVerif.Canonical.TxDesc FuelVerif.Offsets
 open FuelVerif.Gen.Canonical (structs enums inputVariants StructRow FieldRow)
@@ -163,10 +164,11 @@ def txId (H : Bytes → Bytes) (chain : Nat) (t : Tx) : Bytes :=
   | some id => id
   | none => freshId H chain t.kind t.val
 
-/-- `Cacheable::precompute` (chargeable kinds): `self.metadata = None;` then `CommonMetadata::compute(self, chain_id)`
-whose first statement is `let id = tx.id(chain_id)` -/
+/-- `Cacheable::precompute` (chargeable kinds): the effects of the kind's body in source order (`Offsets.Tx.precompute`), where
+`CommonMetadata::compute`'s first statement `let id = tx.id(chain_id)` reads the id of the object AS IT IS at that moment —
+the cached one if the metadata has not been reset before -/
 def precompute (H : Bytes → Bytes) (chain : Nat) (t : Tx) : Except Tx.TooLarge Tx :=
-  Tx.precompute (txId H chain { t with metadata := none }) t
+  Tx.precompute (fun cur => txId H chain cur) t
 
 /-- Mint: value and `Option<MintMetadata>` (`MintMetadata { id }`) -/
 structure MintTx where
@@ -179,9 +181,24 @@ def MintTx.id (H : Bytes → Bytes) (chain : Nat) (t : MintTx) : Bytes :=
   match t.cachedId with
   | some id => id
   | none => freshId H chain .mint t.val
-/-- `Mint::precompute`: `self.metadata = None; self.metadata = Some(MintMetadata::compute(self, chain_id))` -/
-def MintTx.precompute (H : Bytes → Bytes) (chain : Nat) (t : MintTx) : MintTx :=
-  let t0 : MintTx := { t with metadata := none }
-  { t0 with metadata := some (t0.id H chain) }
+/-- the effects of `Mint::precompute` in source order (tools/gen/precompute.py): `reset` = `self.metadata = None`,
+`id` = `MintMetadata::compute(self, chain_id)` = `tx.id(chain_id)` of the object at that moment, `store` -/
+inductive MStep | reset | id | store
+  deriving DecidableEq, Repr, Inhabited
+def MStep.ofEvent : String → Option MStep
+  | "reset" => some .reset | "id" => some .id | "store" => some .store | _ => none
+def mintSteps : List MStep := ((Gen.Precompute.order.lookup "Mint").getD []).filterMap MStep.ofEvent
+
+def MintTx.runSteps (H : Bytes → Bytes) (chain : Nat) : List MStep → MintTx → Option Bytes → MintTx
+  | [], t, _ => t
+  | .reset :: rest, t, i => MintTx.runSteps H chain rest { t with metadata := none } i
+  | .id :: rest, t, _ => MintTx.runSteps H chain rest t (some (t.id H chain))
+  | .store :: rest, t, i =>
+    match i with
+    | some x => MintTx.runSteps H chain rest { t with metadata := some x } i
+    | none => MintTx.runSteps H chain rest t i
+
+/-- `Mint::precompute` -/
+def MintTx.precompute (H : Bytes → Bytes) (chain : Nat) (t : MintTx) : MintTx := MintTx.runSteps H chain mintSteps t none
 
 end FuelVerif.TxId
